@@ -34,8 +34,8 @@ CHECKS = {
         "require_ops": ["law.assoc", "law.unit", "law.interchange", "law.twist_natural", "law.twist_inverse", "law.hexagon"],
     },
     "C04": {
-        "quick": {"gen": [G("MC_C04", "MC_C04_quick.cfg")], "drive": [D("glue", 3000, only=["lax.compose", "strict.compose"])]},
-        "thorough": {"gen": [G("MC_C04", "MC_C04_thorough.cfg")], "drive": [D("glue", 60000, only=["lax.compose", "strict.compose"])]},
+        "quick": {"gen": [G("MC_C04", "MC_C04_quick.cfg")], "drive": [D("glue", 3000, only=["lax.compose", "strict.compose"])], "suite": {"tests": "--test lib open_hypergraph", "ops": ["strict.dagger"], "max_nodes": 24, "max_edges": 12}},
+        "thorough": {"gen": [G("MC_C04", "MC_C04_thorough.cfg")], "drive": [D("glue", 60000, only=["lax.compose", "strict.compose"])], "suite": {"tests": "--test lib", "ops": ["strict.dagger"], "max_nodes": 40, "max_edges": 20}},
         "require_ops": ["law.dagger_compose", "law.dagger_tensor", "law.spider_fusion", "strict.spider", "lax.spider", "strict.dagger", "lax.dagger"],
     },
     "C05": {
@@ -84,8 +84,8 @@ CHECKS = {
                         "lax.delete_edges", "lax.map_nodes", "lax.serde_roundtrip", "lax.h.delete_nodes_witness"],
     },
     "C12": {
-        "quick": {"gen": [G("MC_C12", "MC_C12_quick.cfg"), G("MC_C12", "MC_C12_wide.cfg"), G("MC_C12", "MC_C12_three.cfg")], "drive": [D("progs", 1500, only=["functor."]), D("strict", 2500, only=["functor.", "laxf.dyn", "laxf.identity"])]},
-        "thorough": {"gen": [G("MC_C12", "MC_C12_thorough.cfg"), G("MC_C12", "MC_C12_thorough_b.cfg"), G("MC_C12", "MC_C12_wide.cfg"), G("MC_C12", "MC_C12_three.cfg")], "drive": [D("progs", 30000, only=["functor."]), D("strict", 30000, only=["functor.", "laxf.dyn", "laxf.identity"])]},
+        "quick": {"gen": [G("MC_C12", "MC_C12_quick.cfg"), G("MC_C12", "MC_C12_wide.cfg"), G("MC_C12", "MC_C12_three.cfg")], "drive": [D("progs", 1500, only=["functor."]), D("strict", 2500, only=["functor.", "laxf.dyn", "laxf.identity"])], "suite": {"tests": "--test lib functor", "ops": ["functor.identity"], "max_nodes": 24, "max_edges": 12}},
+        "thorough": {"gen": [G("MC_C12", "MC_C12_thorough.cfg"), G("MC_C12", "MC_C12_thorough_b.cfg"), G("MC_C12", "MC_C12_wide.cfg"), G("MC_C12", "MC_C12_three.cfg")], "drive": [D("progs", 30000, only=["functor."]), D("strict", 30000, only=["functor.", "laxf.dyn", "laxf.identity"])], "suite": {"tests": "--test lib functor", "ops": ["functor.identity"], "max_nodes": 40, "max_edges": 20}},
         "require_ops": ["functor.map_arrow", "laxf.dyn_map_arrow", "functor.laws"],
     },
     "C13": {
@@ -99,8 +99,8 @@ CHECKS = {
         "require_ops": ["optic.map_arrow", "optic.map_adapted", "optic.eval_adapted", "optic.laws", "laxf.optic_map_arrow", "laxf.optic_map_adapted"],
     },
     "C15": {
-        "quick": {"gen": [G("MC_C15", "MC_C15_quick.cfg"), G("MC_C15", "MC_C15_quick_b.cfg"), G("MC_C15", "MC_C15_wide.cfg")], "drive": [D("graphs", 4000, only=["strict.layer", "strict.layered_operations", "hook."])]},
-        "thorough": {"gen": [G("MC_C15", "MC_C15_thorough.cfg"), G("MC_C15", "MC_C15_wide.cfg")], "drive": [D("graphs", 60000, only=["strict.layer", "strict.layered_operations", "hook."])]},
+        "quick": {"gen": [G("MC_C15", "MC_C15_quick.cfg"), G("MC_C15", "MC_C15_quick_b.cfg"), G("MC_C15", "MC_C15_wide.cfg")], "drive": [D("graphs", 4000, only=["strict.layer", "strict.layered_operations", "hook."])], "suite": {"tests": "--lib --test lib layer", "ops": ["strict.layer"], "max_nodes": 40, "max_edges": 40}},
+        "thorough": {"gen": [G("MC_C15", "MC_C15_thorough.cfg"), G("MC_C15", "MC_C15_wide.cfg")], "drive": [D("graphs", 60000, only=["strict.layer", "strict.layered_operations", "hook."])], "suite": {"tests": "--lib --test lib layer", "ops": ["strict.layer"], "max_nodes": 40, "max_edges": 40}},
         "require_ops": ["strict.layer", "strict.layered_operations", "hook.kahn", "hook.converse", "hook.operation_adjacency", "hook.indegree"],
     },
     "C16": {
